@@ -1,9 +1,9 @@
 #!/bin/sh
 # Must-stay-silent suite: every property-preserving change (mutants/silent-*.patch, the hand mutant marked SILENT,
 # seeded changes whose meta.json says "silent") against all 19 quick checks; prints a line per change:
-# SILENT <name> | ALARM <name> <check ...>. usage: scripts/silent-all.sh
+# SILENT <name> | ALARM <name> <check ...>. usage: scripts/silent-all.sh ["C10 C11 ..."]
 cd "$(dirname "$0")/.."
-ALL="C01 C02 C03 C04 C05 C06 C07 C08 C09 C10 C11 C12 C13 C14 C15 C16 C17 C18 C19"
+ALL="${1:-C01 C02 C03 C04 C05 C06 C07 C08 C09 C10 C11 C12 C13 C14 C15 C16 C17 C18 C19}"
 list() {
   ls mutants/silent-*.patch mutants/*SILENT*.patch 2>/dev/null
   for m in seeded/*/meta.json; do
